@@ -48,7 +48,107 @@ check(
     "DESIGN.md §3 C11",
 )
 
+
+_SESSION_NOTE = (
+    "Trusts the reference interpreter (Fractions; validated against gcc-compiled C by sim.xval) and the small-scope "
+    "hypothesis (sizes <= 5, histories <= 12 calls, <= 3 faults). Known findings listed in /verif/known_findings.txt are "
+    "reported as KNOWN-FINDING lines and do not fail the check."
+)
+check(
+    "C01", "checks.c01", "session-sim",
+    "Seeded search over scheduling histories (generated programs x proposers for all 62 primitives, and the repository's "
+    "own tests as harvested sessions) with degraded (F1) and failing (F2) solver verdicts and crash points (F3) injected "
+    "into individual calls; after every returned procedure the origin and the derived procedure are run on seeded inputs "
+    "in a reference interpreter and final buffers/config compared modulo the config fields Exo reports. Sampling, not proof.",
+    _SESSION_NOTE,
+    "deterministic simulation: seeded op histories + solver/crash fault injection, differential execution against a reference interpreter, ddmin replay",
+    "DESIGN.md §3 C01",
+)
+check(
+    "C04", "checks.c04", "session-sim",
+    "Same sessions and fault plans as C01; every reached procedure is checked by a structural scope validator and by the "
+    "interpreter's monitors (out-of-bounds, callee assertion/shape, aliasing, negative trip count, uninitialised data "
+    "reaching an output the original defined).",
+    _SESSION_NOTE,
+    "deterministic simulation: seeded op histories + fault injection, structural validator and interpreter safety monitors as invariants",
+    "DESIGN.md §3 C04",
+)
+check(
+    "C05", "checks.c05", "session-sim",
+    "Histories that produce replaceable blocks (divide/cut/stage) followed by replace with a generated instruction "
+    "library and inline; the call is executed from the callee's body in the interpreter and compared with the replaced "
+    "statements; assertion/shape/size monitors at the new call site; solver failure injected into unification.",
+    _SESSION_NOTE,
+    "deterministic simulation: seeded histories ending in replace/inline, differential execution with the callee body, solver fault injection",
+    "DESIGN.md §3 C05",
+)
+check(
+    "C06", "checks.c06", "session-sim",
+    "After every successful scheduling call of generated and harvested sessions every statement, gap and block cursor of "
+    "the input procedure and of up to three ancestors is forwarded; results are judged by object identity of shared IR "
+    "nodes (same statement), path resolution (no dangling location) and statement class; stale cursors passed to "
+    "operations are compared with explicitly forwarded ones.",
+    "Trusts that rewritten trees share untouched nodes with their source (identity is only used when the object occurs once in the source tree).",
+    "deterministic simulation: seeded op chains with stale cursors, forwarding oracle by IR-node identity evaluated after every call",
+    "DESIGN.md §3 C06",
+)
+check(
+    "C07", "checks.c07", "session-sim",
+    "Every procedure of a session is structurally fingerprinted at creation and re-checked after every call, successful, "
+    "failing or interrupted at an injected crash point / solver fault; each faulted call is followed by the 'user re-runs "
+    "the cell' retry which must give the fault-free outcome; compilations are crashed at seeded line events and repeated.",
+    "Trusts sys.monitoring LINE events as crash points (a fault inside a C call of z3 is modelled at its return).",
+    "deterministic simulation: crash-point / solver fault injection into every call with retry, structural snapshots as invariants",
+    "DESIGN.md §3 C07",
+)
+check(
+    "C09", "checks.c09", "par-sim",
+    "Programs with par loops at every nesting position (and parallelize_loop after short histories) are offered to the "
+    "real back end; accepted ones run in the interpreter with par iterations as tasks under a seeded scheduler; "
+    "iteration footprints must be disjoint and every interleaving must give the sequential result.",
+    "Trusts the interpreter's task model (yield at every shared access, reduce = read-yield-write); C-only races are out of scope.",
+    "deterministic simulation: seeded task scheduler over par-loop iterations at shared-access granularity + footprint conflict monitor",
+    "DESIGN.md §3 C09",
+)
+check(
+    "C10", "checks.c10", "session-sim",
+    "Sessions over programs that read/write configuration directly and through callees, weighted towards bind_config / "
+    "write_config / delete_config / call_eqv and rewrites around config statements; random initial config; buffers must "
+    "be equal and every config field whose final value differs must be in the set Exo reports (get_strictest_eqv_proc).",
+    _SESSION_NOTE,
+    "deterministic simulation: seeded config-heavy histories + solver fault injection, differential execution incl. final config vs reported mod-set",
+    "DESIGN.md §3 C10",
+)
+check(
+    "C18", "checks.c18", "worlds",
+    "Scripted sessions (generated, and the repository's golden tests) are executed in a baseline world and in worlds "
+    "that differ in PYTHONHASHSEED (fresh interpreters), salted id-hashes of Sym/proc/Config/Memory objects, symbol "
+    "counter offset, prefix history (other sessions, failed operations, a crashed compilation, unrelated and same-named "
+    "definitions) and test order; transcripts (returned/raised, printed procedures, C and header text) must be identical.",
+    "Outcome differences caused by z3 answering `unknown` in one world are not counted.",
+    "deterministic simulation: controlled nondeterminism seams (hash salts, hash seeds, symbol offsets, prefix histories) with transcript comparison",
+    "DESIGN.md §3 C18",
+)
+
 ENGINES = [
+    {
+        "name": "session-sim",
+        "path": "/verif/sim/session.py",
+        "serves_properties": ["C01", "C04", "C05", "C06", "C07", "C10"],
+        "kind_free_text": "scheduling-session simulator: generated programs + op proposers + harvested repository tests, fault injection (solver F1/F2, crash points F3), oracles evaluated after every call",
+    },
+    {
+        "name": "par-sim",
+        "path": "/verif/sim/par_sim.py",
+        "serves_properties": ["C09"],
+        "kind_free_text": "reference interpreter with par-loop iterations as tasks under a seeded scheduler",
+    },
+    {
+        "name": "worlds",
+        "path": "/verif/sim/worlds.py",
+        "serves_properties": ["C18"],
+        "kind_free_text": "same scripted session replayed in worlds differing in hash seed, id-hash salt, symbol offset, prefix history",
+    },
     {
         "name": "eqv-sim",
         "path": "/verif/sim/eqv_sim.py",
